@@ -32,7 +32,7 @@ use std::time::Instant;
 
 pub const META: Meta = Meta {
     level: "model_checking",
-    rule: "non-smart: every (N, k) with N in 1..=5 (quick) / 1..=7 (thorough), k in 1..=min(4, N+1), and for each every execution: at each point where the dial is pending the explorer picks which in-flight transport dial completes next, whether it succeeds or fails, and whether further completions are batched before the dial future is polled again. smart: 4 address sets (3-4 addresses with different ranked delays), choices: advance the virtual clock to the next timer or complete an in-flight dial (ok/err). swarm level: a real Swarm over a transport whose dial futures record their first poll dials N in {3,5} addresses with override_dial_concurrency_factor k in {1,2} placed before / after .addresses(..) and with Config::with_dial_concurrency_factor k in {1,2,8}; attempts fail one at a time (oldest / newest first); dial futures polled-and-unfinished <= effective k after every step, each address dialed exactly once. Non-trivial = distinct executions in which at least one dial failed before the outcome (refill / error aggregation exercised).",
+    rule: "non-smart: every (N, k) with N in 1..=5 (quick) / 1..=7 (thorough), k in 1..=min(4, N+1), and for each every execution: at each point where the dial is pending the explorer picks which in-flight transport dial completes next, whether it succeeds or fails, and whether further completions are batched before the dial future is polled again. smart: 4 address sets (3-4 addresses with different ranked delays), choices: advance the virtual clock to the next timer or complete an in-flight dial (ok/err). swarm level: a real Swarm over a transport whose dial futures record their first poll dials N in {3,5} addresses with override_dial_concurrency_factor k in {1,2} placed before / after .addresses(..) and with Config::with_dial_concurrency_factor k in {1,2,8}; attempts fail one at a time (oldest / newest first); dial futures polled-and-unfinished <= effective k after every step, each address dialed exactly once; address selection: every explicit address list of length <=4 (quick) / <=5 (thorough) over {A, B, L=a listen address} with adjacent and non-adjacent repeats x {no behaviour address, behaviour adds A, behaviour adds C, behaviour returns C without extend} x {non-smart, smart}: Transport::dial sees exactly the distinct non-listen addresses in first-occurrence order and the final error lists each once. Non-trivial = distinct executions in which at least one dial failed before the outcome (refill / error aggregation exercised).",
     explanation: "E1 stateless exploration with free branching (all choice sequences, no deviation bound); each execution drives the production future with harness dial futures; oracle evaluated after every poll and on the result.",
     assumptions: &["poll-granularity interleaving on one thread", "a dial future that was polled at least once counts as attempted / in flight until it completes"],
 };
@@ -328,6 +328,7 @@ const MODES: [&str; 3] = ["override-before-addresses", "override-after-addresses
 
 #[derive(Default)]
 struct TSh {
+    events: std::collections::VecDeque<(ListenerId, Multiaddr)>,
     addrs: Vec<Multiaddr>,
     started: Vec<bool>,
     done: Vec<bool>,
@@ -358,8 +359,9 @@ impl Transport for PollTransport {
     type Error = std::io::Error;
     type ListenerUpgrade = TFut;
     type Dial = TFut;
-    fn listen_on(&mut self, _: ListenerId, addr: Multiaddr) -> Result<(), TransportError<std::io::Error>> {
-        Err(TransportError::MultiaddrNotSupported(addr))
+    fn listen_on(&mut self, id: ListenerId, addr: Multiaddr) -> Result<(), TransportError<std::io::Error>> {
+        self.0.lock().unwrap().events.push_back((id, addr));
+        Ok(())
     }
     fn remove_listener(&mut self, _: ListenerId) -> bool {
         false
@@ -374,7 +376,10 @@ impl Transport for PollTransport {
         Ok(TFut { i: s.addrs.len() - 1, sh: self.0.clone() })
     }
     fn poll(self: Pin<&mut Self>, _: &mut Context<'_>) -> Poll<TransportEvent<TFut, std::io::Error>> {
-        Poll::Pending
+        match self.0.lock().unwrap().events.pop_front() {
+            Some((listener_id, listen_addr)) => Poll::Ready(TransportEvent::NewAddress { listener_id, listen_addr }),
+            None => Poll::Pending,
+        }
     }
 }
 
@@ -454,6 +459,168 @@ fn swarm_dial_case(n: usize, mode: usize, k: u8, newest_first: bool) -> Result<b
     Ok(at_limit)
 }
 
+// ---------------------------------------------------------------------------------------------
+// Part 3: which addresses one Swarm-level dial attempts. The explicit address list is any
+// sequence (with adjacent and non-adjacent repeats) over {A, B, L = an address the Swarm listens
+// on}; the behaviour may contribute one more address (equal to A / new) through
+// `extend_addresses_through_behaviour`, or return one that must be discarded. Every address
+// handed to `Transport::dial` must be distinct ("attempted at most once"): the attempted list
+// equals the distinct non-listen addresses in first-occurrence order; after failing every attempt
+// the OutgoingConnectionError lists each attempted address exactly once. Non-smart and smart.
+
+const EXTRA: [&str; 4] = ["none", "behaviour adds A (extend)", "behaviour adds C (extend)", "behaviour returns C (no extend: discarded)"];
+
+fn strip_p2p(m: &Multiaddr) -> Multiaddr {
+    m.iter().filter(|p| !matches!(p, multiaddr::Protocol::P2p(_))).collect()
+}
+
+fn swarm_addr_case(list: &[usize], extra: usize, smart: bool) -> Result<usize, String> {
+    mc::vclock::reset();
+    verif_delay::reset_registry();
+    let mode = if smart { "smart" } else { "concurrent" };
+    let alpha: [Multiaddr; 4] = [kit::ids::maddr(1), kit::ids::maddr(2), kit::ids::maddr(100), kit::ids::maddr(3)];
+    let sh = Arc::new(Mutex::new(TSh::default()));
+    let mut config = libp2p_swarm::Config::without_executor();
+    if smart {
+        config = config.with_smart_dial();
+    }
+    let log: crate::sys::Log = Default::default();
+    let mut probe = Probe::new(0, log, DenyMask::default());
+    probe.extra_addrs = match extra {
+        1 => vec![alpha[0].clone()],
+        2 | 3 => vec![alpha[3].clone()],
+        _ => vec![],
+    };
+    let mut swarm = Swarm::new(PollTransport(sh.clone()).boxed(), probe, kit::ids::peer(0), config);
+    let flag = Arc::new(Flag(AtomicBool::new(true)));
+    let waker = futures::task::waker(flag.clone());
+    let mut cx = Context::from_waker(&waker);
+    let mut reported: Option<Vec<Multiaddr>> = None;
+    let mut listening = false;
+    let mut run = |swarm: &mut Swarm<Probe>, reported: &mut Option<Vec<Multiaddr>>, listening: &mut bool| -> Result<(), String> {
+        for _ in 0..10_000 {
+            if !flag.0.swap(false, SeqCst) {
+                // virtual stagger timers of smart dialing
+                let now = Instant::now();
+                match verif_delay::pending_deadlines().into_iter().find(|d| *d > now && *d < now + std::time::Duration::from_secs(3600)) {
+                    Some(d) => {
+                        mc::vclock::advance(d - now);
+                        verif_delay::fire_due();
+                        if !flag.0.load(SeqCst) {
+                            return Ok(());
+                        }
+                        continue;
+                    }
+                    None => return Ok(()),
+                }
+            }
+            while let Poll::Ready(Some(e)) = swarm.poll_next_unpin(&mut cx) {
+                match e {
+                    SwarmEvent::OutgoingConnectionError { error: libp2p_swarm::DialError::Transport(errs), .. } => *reported = Some(errs.iter().map(|e| strip_p2p(&e.0)).collect()),
+                    SwarmEvent::NewListenAddr { .. } => *listening = true,
+                    _ => {}
+                }
+            }
+        }
+        Err("horizon :: swarm still runnable after 10000 polls".into())
+    };
+    swarm.listen_on(alpha[2].clone()).map_err(|e| format!("harness-desync :: listen_on: {e}"))?;
+    run(&mut swarm, &mut reported, &mut listening)?;
+    if !listening {
+        return Err("harness-desync :: no NewListenAddr".into());
+    }
+    // expectation
+    let mut all: Vec<Multiaddr> = list.iter().map(|&i| alpha[i].clone()).collect();
+    if extra == 1 || extra == 2 {
+        all.extend(swarm.behaviour().extra_addrs.clone());
+    }
+    let mut want: Vec<Multiaddr> = Vec::new();
+    for m in &all {
+        if *m != alpha[2] && !want.contains(m) {
+            want.push(m.clone());
+        }
+    }
+    let p = kit::ids::peer(1);
+    let b = DialOpts::peer_id(p).addresses(list.iter().map(|&i| alpha[i].clone()).collect());
+    let opts = if extra == 1 || extra == 2 { b.extend_addresses_through_behaviour().build() } else { b.build() };
+    let r = swarm.dial(opts);
+    let detail = format!("explicit list {:?}, {}, {mode}", list.iter().map(|&i| ["A", "B", "L(listen)", "C"][i]).collect::<Vec<_>>(), EXTRA[extra]);
+    match (&r, want.is_empty()) {
+        (Err(libp2p_swarm::DialError::NoAddresses), true) => {
+            if !sh.lock().unwrap().addrs.is_empty() {
+                return Err(format!("swarm-dialed-despite-no-addresses {mode} :: {detail}"));
+            }
+            return Ok(0);
+        }
+        (Ok(()), false) => {}
+        (r, _) => return Err(format!("swarm-dial-result-unexpected {mode} :: dial returned {r:?}, expected addresses {want:?}; {detail}")),
+    }
+    flag.0.store(true, SeqCst);
+    for _ in 0..=all.len() + 1 {
+        run(&mut swarm, &mut reported, &mut listening)?;
+        let pick = {
+            let s = sh.lock().unwrap();
+            (0..s.addrs.len()).find(|&i| s.started[i] && !s.done[i])
+        };
+        let Some(pick) = pick else { break };
+        let w = {
+            let mut s = sh.lock().unwrap();
+            s.fail[pick] = true;
+            s.wakers[pick].take()
+        };
+        if let Some(w) = w {
+            w.wake();
+        }
+    }
+    run(&mut swarm, &mut reported, &mut listening)?;
+    let dialed: Vec<Multiaddr> = sh.lock().unwrap().addrs.iter().map(strip_p2p).collect();
+    for (i, d) in dialed.iter().enumerate() {
+        if dialed[..i].contains(d) {
+            return Err(format!("swarm-address-attempted-twice {mode} :: {d} handed to Transport::dial twice in one dial: {dialed:?}; {detail}"));
+        }
+    }
+    if dialed != want {
+        return Err(format!("swarm-dialed-addresses-mismatch {mode} :: Transport::dial saw {dialed:?}, expected {want:?}; {detail}"));
+    }
+    let Some(mut rep) = reported else { return Err(format!("swarm-no-failure-reported {mode} :: every attempt failed but no OutgoingConnectionError(Transport); {detail}")) };
+    let mut w2 = want.clone();
+    rep.sort();
+    w2.sort();
+    if rep != w2 {
+        return Err(format!("swarm-error-list-mismatch {mode} :: errors list {rep:?}, attempted {w2:?} (each must appear exactly once); {detail}"));
+    }
+    Ok(want.len())
+}
+
+fn swarm_addr_part(ctx: &Ctx, out: &mut Outcome) {
+    let maxlen = ctx.tier.pick(4, 5);
+    let (mut dedup_cases, mut n) = (0u64, 0u64);
+    mc::enumerate::sequences_upto(3, maxlen, |list| {
+        for extra in 0..4 {
+            for smart in [false, true] {
+                n += 1;
+                out.evaluations += 1;
+                out.traces += 1;
+                let distinct: std::collections::BTreeSet<usize> = list.iter().copied().collect();
+                let repeats = distinct.len() != list.len() || (extra == 1 && list.contains(&0));
+                if repeats {
+                    dedup_cases += 1;
+                    out.nontrivial(&format!("addr{list:?}{extra}{smart}"));
+                }
+                let case = json!({"part": "swarm-addrs", "list": list, "extra": extra, "smart": smart});
+                if let Err(m) = mc::catch(|| swarm_addr_case(list, extra, smart)).unwrap_or_else(|p| Err(format!("panic at {} :: {p}", mc::shim::last_panic_loc().unwrap_or_default()))) {
+                    out.violation(mc::bfs::signature_of(&m), m, case);
+                }
+            }
+        }
+    });
+    out.count("swarm_level_address_lists", n);
+    out.count("swarm_level_address_lists_with_repeats", dedup_cases);
+    if dedup_cases == 0 {
+        out.machinery("vacuity: no address list with repeats was dialed");
+    }
+}
+
 fn swarm_part(out: &mut Outcome) {
     let mut at_limit = 0u64;
     for n in [3usize, 5] {
@@ -483,6 +650,14 @@ pub fn run(ctx: &Ctx) -> Outcome {
     let mut out = Outcome::default();
     if let Some(case) = &ctx.replay {
         out.evaluations = 1;
+        if case["part"] == "swarm-addrs" {
+            let list: Vec<usize> = serde_json::from_value(case["list"].clone()).unwrap_or_default();
+            let r = mc::catch(|| swarm_addr_case(&list, case["extra"].as_u64().unwrap_or(0) as usize, case["smart"].as_bool().unwrap_or(false))).unwrap_or_else(|p| Err(format!("panic :: {p}")));
+            if let Err(m) = r {
+                out.violation(mc::bfs::signature_of(&m), m, case.clone());
+            }
+            return out;
+        }
         if case["part"] == "swarm" {
             let r = mc::catch(|| swarm_dial_case(case["n"].as_u64().unwrap_or(3) as usize, case["mode"].as_u64().unwrap_or(0) as usize, case["k"].as_u64().unwrap_or(1) as u8, case["newest_first"].as_bool().unwrap_or(false)))
                 .unwrap_or_else(|p| Err(format!("panic :: {p}")));
@@ -547,6 +722,7 @@ pub fn run(ctx: &Ctx) -> Outcome {
         }
     }
     swarm_part(&mut out);
+    swarm_addr_part(ctx, &mut out);
     out.count("executions_with_failures_before_outcome", with_refill);
     out.count("results_ok", oks);
     out.count("results_err", errs);
